@@ -46,7 +46,7 @@ def strategy(tier):
 
 def _conv(value, frm, to, comp):
     p = build.permeance(value, frm)
-    out = call(p.convert, to, comp)
+    out = call(p.convert, build.fresh(to), comp)
     require(not is_raised(out), "convert %r %s->%s raised %r", value, frm, to, out)
     require(out.units == to, "convert %s->%s returned units %r", frm, to, out.units)
     require(out.value >= 0 and math.isfinite(out.value), "convert %r %s->%s returned value %r", value, frm, to, out.value)
@@ -63,6 +63,9 @@ def check(case):
     require_close(ab, v * _factor(a, mw) / _factor(b, mw), TOL, "%r %s->%s (M=%r)" % (v, a, b, mw))
     if a == b:
         require(ab == v, "identity conversion %s->%s changed %r to %r", a, b, v, ab)
+        # equal units need no component, whatever string object names them
+        same = call(build.permeance(v, a).convert, build.fresh(b), None)
+        require(not is_raised(same) and same.value == v, "conversion %s->%s (equal units, no component) gives %r", a, b, same)
     # path independence and invertibility
     abc = _conv(ab, b, c, comp)
     ac = _conv(v, a, c, comp)
